@@ -299,7 +299,12 @@ Definition track_plans (f : fsys) (mreq : option method) (ps : list path) : list
   flat_map (fun p => match track_plan f mreq p with Some t => [t] | None => [] end) (dedup ps).
 
 Definition sel {A} (c : bool) (x : A) : list A := if c then [x] else [].
+(* a path with a path record and no metadata record: diff_file_content_digest panics ("We have path
+   but no metadata for entity"), only_file_targets trips its length assertion; both before any effect *)
+Definition partial_records (f : fsys) (ps : list path) : bool :=
+  existsb (fun p => tracked f p && match rec_stamp f p with Some _ => false | None => true end) ps.
 Definition track_effects (f : fsys) (mreq : option method) (ps : list path) : list fsop :=
+  if partial_records f (dedup ps) then [] else
   let tps := track_plans f mreq ps in
   let evs_path   := flat_map (fun t => sel (tp_new t) {| ev_p := tp_p t; ev_v := VPath |}) tps in
   let evs_meta   := flat_map (fun t => sel (tp_changed t) {| ev_p := tp_p t; ev_v := VMeta (tp_stamp t) |}) tps in
@@ -318,18 +323,20 @@ Definition track_effects (f : fsys) (mreq : option method) (ps : list path) : li
    records are saved (update_store_records(.., false, false)) *)
 Inductive cdiff := CSkipped | CIdentical | CDifferent (stamp : N) (b : bytes) | CMissing.
 Definition carry_diff (f : fsys) (p : path) : cdiff :=
-  match ws_stamp f p, ws_read f p with
-  | Some s, Some b =>
+  match fget f (LWs p) with
+  | Some (NData b _ s) =>
       if opt_N_eqb (rec_stamp f p) (Some s) then CSkipped
       else match rec_digest f p with
            | Some d => if beqb d b then CIdentical else CDifferent s b
            | None => CMissing       (* RecordMissing: warned about and skipped, like a missing file *)
            end
-  | _, _ => CMissing
+  | Some (NSym _) => CSkipped       (* a link into the cache has the metadata of the object: unchanged *)
+  | _ => CMissing
   end.
 Definition carry_targets (f : fsys) (ps : list path) : list path :=
   filter (fun p => tracked f p && match rec_stamp f p with Some _ => true | None => false end) (dedup ps).
 Definition carry_in_effects (f : fsys) (ps : list path) : list fsop :=
+  if partial_records f (dedup ps) then [] else
   let ts := carry_targets f ps in
   let ds := map (fun p => (p, carry_diff f p)) ts in
   (* a selected target without a cache path trips the length assertion of carry_in(): panic
@@ -378,6 +385,7 @@ Fixpoint recheck_all (f : fsys) (l : list rplan) : list fsop :=
                (fun f1 => recheck_all f1 t)
   end.
 Definition recheck_effects (f : fsys) (mreq : option method) (force : bool) (ps : list path) : list fsop :=
+  if partial_records f (dedup ps) then [] else
   let rps := flat_map (fun p => match recheck_plan f mreq force p with Some r => [r] | None => [] end)
                       (carry_targets f ps) in
   let evs := flat_map (fun r => sel (rp_mchanged r) {| ev_p := rp_p r; ev_v := VMethod (rp_m r) |}) rps in
@@ -441,6 +449,58 @@ Definition ws_holds (f : fsys) (b : bytes) : bool :=
 Definition bytes_kept (f0 f : fsys) : bool :=
   forallb (fun e => match e with (LWs _, NData b _ _) => ws_holds f b || obj_holds f b | _ => true end) (ents f0).
 
+(* ---- the discipline of effect lists (executable; Crash/Proofs.v shows it implies the clauses at every
+   prefix, and that the effect lists of the commands obey it) -------------------------------------------- *)
+Definition mem (p : path) (l : list path) : bool := existsb (N.eqb p) l.
+Definition rm (p : path) (l : list path) : list path := filter (fun q => negb (N.eqb p q)) l.
+(* [opened]: workspace paths whose present file was created by this command (it holds no bytes of the
+   user).  [strict] = also clause (c): a workspace file is removed only when its bytes are in the cache. *)
+Definition step_ok (strict : bool) (f : fsys) (opened : list path) (o : fsop) : bool :=
+  match o with
+  | Mkdir (LObjDir _) => true
+  | Creat (LWs p) => negb (exists_at f (LWs p))
+  | Creat l => is_meta_loc l
+  | Touch LIgn => true
+  | Append LIgn _ => true
+  | Append (LWs p) _ => mem p opened
+  | WriteMeta l _ => is_meta_loc l
+  | Rename (LWs p) (LObj c) => match fget f (LWs p) with Some (NData b _ _) => beqb b c | _ => false end
+  | Rename a b => is_meta_loc a && is_meta_loc b
+  | Unlink (LWs p) => negb strict || mem p opened
+                      || match fget f (LWs p) with Some (NData b _ _) => obj_holds f b | _ => true end
+  | Unlink l => is_meta_loc l
+  | Link (LObj _) (LWs _) => true
+  | Symlink c (LWs _) => obj_holds f c                 (* links are made to objects that are there *)
+  | Chmod (LObj _) _ | Chmod (LObjDir _) _ | Chmod (LWs _) _ => true
+  | CopyChunk (LObj _) (LWs p) _ => mem p opened
+  | _ => false
+  end.
+Definition opened_after (opened : list path) (o : fsop) : list path :=
+  match o with
+  | Creat (LWs p) => p :: opened
+  | Unlink (LWs p) | Rename (LWs p) _ | Link _ (LWs p) | Symlink _ (LWs p) => rm p opened
+  | _ => opened
+  end.
+Fixpoint all_ok (strict : bool) (f : fsys) (opened : list path) (l : list fsop) : bool :=
+  match l with
+  | [] => true
+  | o :: r => step_ok strict f opened o && all_ok strict (apply o f) (opened_after opened o) r
+  end.
+(* clause (a): nothing but a complete payload ever appears under a listed name *)
+Definition meta_ok (f : fsys) (o : fsop) : bool :=
+  match o with
+  | Rename p q => negb (listed_meta q)
+                  || match q, fget f p with
+                     | LStore _ _, Some (NMeta (Some (PEvents _))) => true
+                     | LEc _, Some (NMeta (Some (PCounter _))) => true
+                     | _, _ => false end
+  | Unlink _ => true
+  | Mkdir l | Creat l | Touch l | Append l _ | WriteMeta l _ | Link _ l | Symlink _ l | Chmod l _ | CopyChunk _ l _ =>
+      negb (listed_meta l)
+  end.
+Fixpoint all_meta_ok (f : fsys) (l : list fsop) : bool :=
+  match l with [] => true | o :: r => meta_ok f o && all_meta_ok (apply o f) r end.
+
 (* ---- observation, for "re-running converges" ------------------------------------------------------------------ *)
 (* what a user can see of path p, without modification times *)
 Inductive wsobs := ONone | OFile (b : bytes) (w : bool) | OLink (c : bytes).
@@ -461,13 +521,28 @@ Definition opt_bytes_eqb (a b : option bytes) : bool :=
   match a, b with Some x, Some y => beqb x y | None, None => true | _, _ => false end.
 Definition opt_method_eqb (a b : option method) : bool :=
   match a, b with Some x, Some y => method_eqb x y | None, None => true | _, _ => false end.
-(* same workspace view, same recorded version and method, same version restorable, for the paths ps *)
+(* permission bits of an object and of its directory (read-only after every complete command) *)
+Definition obj_mode (f : fsys) (c : bytes) : option (bool * bool) :=
+  match fget f (LObj c), fget f (LObjDir c) with
+  | Some (NData _ w _), Some (NDir dw) => Some (w, dw)
+  | _, _ => None
+  end.
+Definition obj_mode_eqb (a b : option (bool * bool)) : bool :=
+  match a, b with
+  | Some (w, d), Some (w', d') => Bool.eqb w w' && Bool.eqb d d'
+  | None, None => true
+  | _, _ => false
+  end.
+(* same workspace view, same recorded version and method, same version restorable, same object
+   permissions, for the paths ps *)
 Definition same_obs (ps : list path) (f g : fsys) : bool :=
   forallb (fun p => wsobs_eqb (obs_ws f p) (obs_ws g p)
                     && opt_bytes_eqb (rec_digest f p) (rec_digest g p)
                     && opt_method_eqb (rec_method f p) (rec_method g p)
                     && Bool.eqb (tracked f p) (tracked g p)
-                    && match rec_digest f p with Some c => Bool.eqb (obj_holds f c) (obj_holds g c) | None => true end) ps.
+                    && match rec_digest f p with
+                       | Some c => Bool.eqb (obj_holds f c) (obj_holds g c) && obj_mode_eqb (obj_mode f c) (obj_mode g c)
+                       | None => true end) ps.
 
 (* "re-running the interrupted command and then `xvc file recheck`" vs the uninterrupted run (+ recheck) *)
 Definition rerun (fixed : bool) (chunk : N) (c : command) (ps : list path) (f : fsys) : fsys :=
@@ -488,13 +563,13 @@ Definition K_crash_during_workspace_copy (n : nat) (l : list fsop) : bool :=
   | Some (Chmod (LWs _) _) | Some (CopyChunk _ (LWs _) _) => true
   | _ => false
   end.
-(* P23: the kill fell between the save of the digest records and the arrival of the content in the
+(* P23: the kill fell between the save of a record store and the arrival of the content in the
    cache (track: records first), or between the move of the content into the cache and the save of
-   the digest records (carry-in: content first) *)
-Definition completes_digest_save (o : fsop) : bool :=
+   a record store (carry-in: content first) *)
+Definition completes_record_save (o : fsop) : bool :=
   match o with
-  | WriteMeta (LStore SDigest _) _ => true
-  | Rename (LStoreTmp SDigest _) (LStore SDigest _) => true
+  | WriteMeta (LStore _ _) _ => true
+  | Rename (LStoreTmp _ _) (LStore _ _) => true
   | _ => false
   end.
 Definition moves_into_cache (o : fsop) : bool :=
@@ -502,5 +577,18 @@ Definition moves_into_cache (o : fsop) : bool :=
 Definition K_crash_between_records_and_content (n : nat) (l : list fsop) : bool :=
   let done := firstn n l in
   let todo := skipn n l in
-  (existsb completes_digest_save done && existsb moves_into_cache todo)
-  || (existsb moves_into_cache done && existsb completes_digest_save todo).
+  (existsb completes_record_save done && existsb moves_into_cache todo)
+  || (existsb moves_into_cache done && existsb completes_record_save todo).
+(* P30: the kill fell between the saves of two record stores of the same command *)
+Definition K_partial_record_set (n : nat) (l : list fsop) : bool :=
+  existsb completes_record_save (firstn n l) && existsb completes_record_save (skipn n l).
+(* P31: the kill preceded the chmod that makes a new object, or its directory, read-only again: the
+   object stays writable for ever (and a later hard link of it in the workspace is writable too) *)
+Definition K_object_left_writable (n : nat) (l : list fsop) : bool :=
+  match next_op n l with
+  | Some (Chmod (LObj _) false) | Some (Chmod (LObjDir _) false) => true
+  | _ => false
+  end.
+Definition K_any (n : nat) (l : list fsop) : bool :=
+  K_torn_event_file n l || K_crash_during_workspace_copy n l
+  || K_crash_between_records_and_content n l || K_partial_record_set n l || K_object_left_writable n l.
